@@ -40,6 +40,16 @@ pub enum Obj {
     CVec(CounterVec),
     ICVec(IntCounterVec),
     HVec(HistogramVec),
+    Reg { r: Registry, cols: Vec<RegCol> },
+}
+
+#[derive(Clone)]
+pub struct RegCol {
+    pub cid: String,
+    pub c: IntCounter,
+    pub name: String,
+    pub help: String,
+    pub k: String,
 }
 
 fn num(v: f64) -> Value {
@@ -103,8 +113,36 @@ fn make_obj_inner(o: &Value, kind: &str) -> Obj {
             let bounds: Vec<f64> = o["bounds"].as_array().unwrap().iter().map(|x| x.as_f64().unwrap()).collect();
             Obj::HVec(HistogramVec::new(HistogramOpts::new("h", "h").buckets(bounds), &["l"]).unwrap())
         }
+        "registry" => {
+            let mut cols = vec![];
+            let mut ids: Vec<&String> = o["collectors"].as_object().unwrap().keys().collect();
+            ids.sort();
+            for cid in ids {
+                let d = &o["collectors"][cid];
+                let mut opts = Opts::new(d["name"].as_str().unwrap(), d["help"].as_str().unwrap());
+                let k = d["k"].as_str().unwrap_or("-").to_owned();
+                if k != "-" {
+                    opts = opts.const_label("k", k.clone());
+                }
+                cols.push(RegCol { cid: cid.clone(), c: IntCounter::with_opts(opts).unwrap(), name: d["name"].as_str().unwrap().to_owned(), help: d["help"].as_str().unwrap().to_owned(), k });
+            }
+            Obj::Reg { r: Registry::new(), cols }
+        }
         _ => panic!("unknown object kind {}", kind),
     }
+}
+
+fn reg_gather(r: &Registry, cols: &[RegCol]) -> Value {
+    let mut out = vec![];
+    for mf in r.gather() {
+        for m in mf.get_metric() {
+            let k = m.get_label().iter().find(|l| l.name() == "k").map(|l| l.value().to_owned()).unwrap_or_else(|| "-".to_owned());
+            let cid = cols.iter().find(|c| c.name == mf.name() && c.help == mf.help() && c.k == k).map(|c| c.cid.clone()).unwrap_or_else(|| format!("?{}|{}|{}", mf.name(), mf.help(), k));
+            out.push(json!([cid, num(crate::pm::counter_value(m))]));
+        }
+    }
+    out.sort_by(|a, b| a[0].as_str().unwrap().cmp(b[0].as_str().unwrap()));
+    Value::Array(out)
 }
 
 fn hist_json(hh: &proto::Histogram) -> Value {
@@ -244,6 +282,21 @@ pub fn exec(obj: &Obj, loc: &mut Locals, op: &Value) -> Value {
                 _ => panic!("op {}", k),
             }
         }
+        Obj::Reg { r, cols } => {
+            let col = |cid: &str| cols.iter().find(|c| c.cid == cid).unwrap_or_else(|| panic!("collector {}", cid));
+            let res = |x: prometheus::Result<()>| match x {
+                Ok(()) => json!("Ok"),
+                Err(prometheus::Error::AlreadyReg) => json!("AlreadyReg"),
+                Err(_) => json!("Err"),
+            };
+            match k {
+                "reg" => res(r.register(Box::new(col(op["c"].as_str().unwrap()).c.clone()))),
+                "unreg" => res(r.unregister(Box::new(col(op["c"].as_str().unwrap()).c.clone()))),
+                "gather" => reg_gather(r, cols),
+                "cinc" => { col(op["c"].as_str().unwrap()).c.inc_by(vi as u64); json!(0) }
+                _ => panic!("op {}", k),
+            }
+        }
         Obj::HVec(hv) => {
             let key = op.get("key").and_then(|x| x.as_str()).unwrap_or("");
             let hs = op.get("h").and_then(|x| x.as_i64()).unwrap_or(0);
@@ -272,6 +325,7 @@ fn known_cells(obj: &Obj) -> HashMap<usize, String> {
         Obj::CVec(v) => { m.insert(v.verif_lock_addr(), "lock".to_owned()); }
         Obj::ICVec(v) => { m.insert(v.verif_lock_addr(), "lock".to_owned()); }
         Obj::HVec(v) => { m.insert(v.verif_lock_addr(), "lock".to_owned()); }
+        Obj::Reg { r, .. } => { m.insert(r.verif_lock_addr(), "lock".to_owned()); }
         _ => {}
     }
     m
@@ -344,6 +398,24 @@ fn project(obj: &Obj, s: &Sched, names: &[String], keys: &[String]) -> Value {
             let l = s.lock_state(v.verif_lock_addr());
             json!({"lock": lock_json(&l, names)})
         }
+        Obj::Reg { r, cols } => {
+            let l = s.lock_state(r.verif_lock_addr());
+            let mut o = json!({"lock": lock_json(&l, names)});
+            let mut cv = Map::new();
+            for c in cols {
+                cv.insert(c.cid.clone(), json!(c.c.get()));
+            }
+            o["cval"] = Value::Object(cv);
+            if l.writer.is_none() {
+                let shown: Vec<String> = reg_gather(r, cols).as_array().unwrap().iter().map(|p| p[0].as_str().unwrap().to_owned()).collect();
+                let mut reg = Map::new();
+                for c in cols {
+                    reg.insert(c.cid.clone(), json!(shown.contains(&c.cid)));
+                }
+                o["registered"] = Value::Object(reg);
+            }
+            o
+        }
     }
 }
 
@@ -352,7 +424,7 @@ fn subset_eq(expected: &Value, actual: &Value) -> bool {
     match (expected, actual) {
         (Value::Object(e), Value::Object(a)) => e.iter().all(|(k, ev)| match a.get(k) {
             Some(av) => subset_eq(ev, av),
-            None => k == "children" || k == "pc",
+            None => k == "children" || k == "pc" || k == "registered",
         }),
         _ => expected == actual,
     }
@@ -444,7 +516,7 @@ fn run_job(scen: &Value, names: &[String], job: &Value, budget: usize, want_ops:
     };
     // for counter/gauge objects every cell is "known" (there is only the value cell)
     let all_known = matches!(obj, Obj::Counter(_) | Obj::IntCounter(_) | Obj::Gauge(_) | Obj::IntGauge(_));
-    let child_cells_known = matches!(obj, Obj::CVec(_) | Obj::ICVec(_) | Obj::HVec(_));
+    let child_cells_known = matches!(obj, Obj::CVec(_) | Obj::ICVec(_) | Obj::HVec(_) | Obj::Reg { .. });
 
     macro_rules! do_grant {
         ($t:expr) => {{
@@ -617,6 +689,7 @@ fn run_job(scen: &Value, names: &[String], job: &Value, budget: usize, want_ops:
                 "sum": exec(&obj, &mut loc, &json!({"k": "sum"})),
             }),
             Obj::CVec(_) | Obj::ICVec(_) | Obj::HVec(_) => json!({"collect": exec(&obj, &mut loc, &json!({"k": "collect"}))}),
+            Obj::Reg { .. } => json!({"gather": exec(&obj, &mut loc, &json!({"k": "gather"}))}),
             _ => json!({"get": exec(&obj, &mut loc, &json!({"k": "get"}))}),
         };
         out.insert("fin".into(), fin);
@@ -670,6 +743,7 @@ pub fn run_seq(input: &str, output: &str) {
                 "sum": exec(&obj, &mut l2, &json!({"k": "sum"})),
             }),
             Obj::CVec(_) | Obj::ICVec(_) | Obj::HVec(_) => json!({"collect": exec(&obj, &mut l2, &json!({"k": "collect"}))}),
+            Obj::Reg { .. } => json!({"gather": exec(&obj, &mut l2, &json!({"k": "gather"}))}),
             _ => json!({"get": exec(&obj, &mut l2, &json!({"k": "get"}))}),
         };
         writeln!(w, "{}", json!({"id": job["id"], "obj": job["obj"], "calls": calls, "fin": fin})).unwrap();
